@@ -128,6 +128,7 @@ def prof_C02(d, rng):
 
 def prof_C03(d, rng):
     prof_C02(d, rng)
+    d["status_reads"] = rng.random() < 0.3
     d["stop"] = rng.random() < 0.35
     d["p_hook_fail"] = rng.choice([0.0, 0.05, 0.15])
     d["tagsel"] = rng.random() < 0.5
